@@ -67,6 +67,10 @@ CPPToken::CPPToken(int token, int line_number, int col_number, const CPPFile &fi
 //@extract src/cppparser/cppPreprocessor.cxx CPPPreprocessor::CPPPreprocessor
 //@extract src/cppparser/cppPreprocessor.cxx CPPPreprocessor::skip_digit_separator
 //@extract src/cppparser/cppPreprocessor.cxx CPPPreprocessor::get_number
+//@extract src/cppparser/cppPreprocessor.cxx hex_val
+//@extract src/cppparser/cppPreprocessor.cxx CPPPreprocessor::scan_escape_sequence
+//@extract src/cppparser/cppPreprocessor.cxx CPPPreprocessor::scan_quoted
+//@extract src/cppparser/cppPreprocessor.cxx CPPPreprocessor::get_quoted_char
 
 static CPPPreprocessor g_pp_obj;
 static void make_input() {
@@ -109,5 +113,23 @@ void h_get_number_any() {
   g_pp_obj.get_number(vin_in[0]);
   OBL(g_lit_calls == 1 && (g_lit_token == INTEGER || g_lit_token == REAL), "C15.get_number: every input that starts with a digit or a period yields one numeric token");
   OBL(g_lit_len <= (size_t)vin_in_len + 1, "C15.get_number: the spelling is no longer than the input");
+  VU_REACHED();
+}
+
+// ---- a character literal 'c', '\ooo' or '\xHH' ([lex.ccon]): the CHAR_TOK token carries the value of the literal, which
+// has type char: a code unit of 0x80 and above is negative where plain char is signed (the platform of this build, x86-64)
+void h_get_quoted_char() {
+  make_input(); g_pos = 0;          // get_token() has read the opening quote and passes it as the argument
+  int c0 = vin_in[0], c1 = vin_in_len > 1 ? vin_in[1] : -1, c2 = vin_in_len > 2 ? vin_in[2] : -1, c3 = vin_in_len > 3 ? vin_in[3] : -1;
+  int unit, used;
+  if (c0 != '\\') { __CPROVER_assume(c0 != '\'' && c0 != '\n' && c0 != 0); unit = c0; used = 1; }
+  else if (c1 == 'x') { __CPROVER_assume(digit_of(c2) < 16 && digit_of(c3) < 16); unit = digit_of(c2) * 16 + digit_of(c3); used = 4; __CPROVER_assume(unit != 0); }
+  else { __CPROVER_assume(c1 >= '1' && c1 <= '3' && c2 >= '0' && c2 <= '7' && c3 >= '0' && c3 <= '7'); unit = (c1 - '0') * 64 + (c2 - '0') * 8 + (c3 - '0'); used = 4; }
+  __CPROVER_assume(vin_in_len == used + 1 && vin_in[used] == '\'');
+  g_pp_obj._unget = '\0'; g_errors = 0; g_warnings = 0; g_lit_calls = 0;
+  g_pp_obj.get_quoted_char('\'');
+  OBL(g_lit_calls == 1 && g_lit_token == CHAR_TOK, "C07.get_quoted_char: a character literal is one CHAR_TOK token");
+  OBL(g_lit_value == (long long)(signed char)unit, "C07.get_quoted_char: a character literal has the value of its code unit as a (signed) char: '\\xff' is -1, 'a' is 97");
+  OBL(g_pos == vin_in_len && g_errors == 0, "C07.get_quoted_char: exactly the characters of the literal are consumed and no error is reported");
   VU_REACHED();
 }
